@@ -68,6 +68,23 @@ def build_duck(repo):
 _DUCK = {}
 
 
+def _dictionary(repo):
+    """option-like words ("-x", "--word") that occur as string literals in the non-test source of the tree under test:
+    data for the finders (the usual fuzzing dictionary); written under build/"""
+    import re
+    out = os.path.join(VERIF, 'build', 'finder-dict-%s.txt' % _rid(repo))
+    words = set()
+    for root, _, files in os.walk(os.path.join(repo, 'duckscript_sdk', 'src')):
+        for f in files:
+            if f.endswith('.rs') and not f.endswith('_test.rs'):
+                try:
+                    words.update(re.findall(r'"(--?[A-Za-z][A-Za-z0-9_-]*)"', open(os.path.join(root, f), errors='replace').read()))
+                except OSError:
+                    pass
+    open(out, 'w').write('\n'.join(sorted(words)) + '\n')
+    return out
+
+
 def _scratch_cwd():
     base = os.path.join(os.path.dirname(os.path.dirname(os.path.abspath(__file__))), 'build', 'finder-cwd')
     os.makedirs(base, exist_ok=True)
@@ -76,6 +93,8 @@ def _scratch_cwd():
 
 def _run(binp, args, timeout):
     env = dict(os.environ)
+    if args and args[0] == 'C19':
+        env['VERIF_DICT'] = _dictionary(_DUCK.get('repo', '/repo'))
     if args and args[0] == 'C20':
         repo = _DUCK.get('repo', '/repo')
         if repo not in _DUCK:
@@ -142,6 +161,8 @@ def find(pid, seed, budget, repo, failure):
 
 def _last_started_input(binp, pid, seed, budget):
     env = dict(os.environ, VERIF_FINDER_TRACE='1')
+    if pid == 'C19':
+        env['VERIF_DICT'] = _dictionary(_DUCK.get('repo', '/repo'))
     if _DUCK.get(_DUCK.get('repo', '/repo')):
         env['VERIF_DUCK_BIN'] = _DUCK[_DUCK.get('repo', '/repo')]
     try:
@@ -185,6 +206,9 @@ def witness_fails(pid, known, repo):
     json.dump(dict(witness=known['witness']), open(tmp, 'w'))
     r = _run(binp, [pid, 'run', tmp], 120)
     os.remove(tmp)
+    if r.get('died'):
+        # the witness kills the process that runs it (abort, stack overflow): it still fails
+        return True
     if 'fails' not in r:
         return None
     return bool(r['fails'])
